@@ -17,6 +17,15 @@ def tus(tier, seed):
             body += '  bin<%d, %s, %d, %s>(rng);\n' % (dl, C05.CT[nl], dr, C05.CT[nr])
         body += '}\n'
         res.append(dict(name='C03_el_%d' % (i // per), src=body, compiler='g++'))
+    # wide_integer comparisons across different widths (single-word vs multi-word, multi vs multi)
+    hdr = os.path.join(os.path.dirname(os.path.abspath(__file__)), 'C03w.h')
+    pairs = [(200, 300), (300, 200), (129, 200), (200, 200), (150, 1024), (100, 200), (200, 100)]
+    for i in range(0, len(pairs), 3):
+        body = '#include "%s"\nint main(){ install(); Rng rng(seed_from_env());\n' % hdr
+        for (dl, dr) in pairs[i:i + 3]:
+            body += '  wcmp<%d, %d>(rng);\n' % (dl, dr)
+        body += '}\n'
+        res.append(dict(name='C03_wide_%d' % (i // 3), src=body, compiler='g++'))
     return res
 
 
